@@ -613,6 +613,12 @@ func (g *FuncGen) execConvert(x *ssa.Convert) {
 		if _, ok := to.Underlying().(*types.Slice); ok {
 			ref := g.freshRef()
 			g.emit(fmt.Sprintf("(assert (=> %s (and (= (s-arr %s) %s) (= (s-off %s) 0) (= (s-len %s) (s-cap %s)) (= (s-len %s) (strlen %s)))))", g.guard, r, ref, r, r, r, r, v))
+			if sl := to.Underlying().(*types.Slice); isUint8(sl.Elem()) && isString(from) {
+				// the bytes of the fresh array are the bytes of the string
+				g.sc.declare("strat", "(declare-fun strat (Str Int) Int)")
+				k := g.sc.elemComp(sl.Elem())
+				g.assume(fmt.Sprintf("(forall ((k! Int)) (! (=> (and (<= 0 k!) (< k! (strlen %s))) (= (select (select %s %s) k!) (strat %s k!))) :pattern ((select (select %s %s) k!))))", v, g.get(g.st, k), ref, v, g.get(g.st, k), ref))
+			}
 		} else if _, ok := from.Underlying().(*types.Slice); ok {
 			g.assume(fmt.Sprintf("(= (strlen %s) (s-len %s))", r, v))
 		} else {
@@ -627,6 +633,11 @@ func (g *FuncGen) execConvert(x *ssa.Convert) {
 		}
 		unsup("convert %s -> %s", from, to)
 	}
+}
+
+func isUint8(t types.Type) bool {
+	b, ok := t.Underlying().(*types.Basic)
+	return ok && b.Kind() == types.Uint8
 }
 
 func (g *FuncGen) boxFun(t types.Type) (box, unbox string) {
@@ -801,6 +812,15 @@ func (g *FuncGen) execSelect(x *ssa.Select) {
 		}
 	}
 	g.tups[x] = tup
+	if !x.Blocking && g.c != nil && g.c.Opts["select_default_only_if"] != "" {
+		e, err := ParseExpr(g.c.Opts["select_default_only_if"])
+		if err != nil {
+			panic(specErr{err.Error()})
+		}
+		cx := g.newSpecCtx(g.st, g.entry)
+		g.assume(fmt.Sprintf("(=> (= %s (- 1)) %s)", idx, cx.boolTerm(e)))
+		g.assumptions["non-blocking select in "+g.key+": the default case is taken only if "+g.c.Opts["select_default_only_if"]+" (modelling assumption)"] = true
+	}
 	g.assumptions["select: any ready case may be chosen; received values are arbitrary"] = true
 	// sends inside select are accounted for when the chosen branch is taken (ghost counting not supported there)
 }
